@@ -22,7 +22,7 @@ Definition P2A (a : atree) : Prop := forall nsc sc h,
   exists h' x, deser_attr (t2p_a a) sc h = Ok (h', x) /\ nested h h' /\ real2_a (fun v => nv h <= v) h' (map ids sc) x a /\
                fst x = aname a /\ depth_a a + ngr h <= ngr h'.
 Definition P2As (al : atrees) : Prop := forall nsc sc h,
-  chain_ok2 sc -> SC h sc -> map nms sc = nsc -> wf2_as nsc al = true ->
+  chain_ok2 sc -> SC h sc -> map nms sc = nsc -> nodup_N (anames al) = true -> wf2_as nsc al = true ->
   exists h' l, deser_attrs (t2p_as al) sc h = Ok (h', l) /\ nested h h' /\ real2_as (fun v => nv h <= v) h' (map ids sc) l al /\
                map fst l = anames al /\ depth_as al + ngr h <= ngr h'.
 Definition P2N (t : ntree) : Prop := forall b (I : N -> N -> Prop) outer outn sc cur vis h lo lvl,
@@ -119,15 +119,16 @@ Qed.
 
 (* ------------------------------------------------------------------ attributes and graph lists *)
 Lemma P2As_nil : P2As TANil.
-Proof. intros nsc sc h Hc HS Hn Hwf. exists h, []. cbn. csplit; auto; try apply nested_refl. Qed.
+Proof. intros nsc sc h Hc HS Hn Hnd Hwf. exists h, []. cbn. csplit; auto; try apply nested_refl. Qed.
 
 Lemma P2As_cons a r : P2A a -> P2As r -> P2As (TACons a r).
 Proof.
-  intros IHa IHr nsc sc h Hc HS Hn Hwf. cbn [wf2_as] in Hwf. apply andb_prop in Hwf. destruct Hwf as (W1 & W2).
+  intros IHa IHr nsc sc h Hc HS Hn Hnd Hwf. cbn [wf2_as] in Hwf. apply andb_prop in Hwf. destruct Hwf as (W1 & W2).
+  destruct (attr_not_repeated _ _ Hnd) as (Hex & Hnd2).
   destruct (IHa nsc sc h) as (h1 & x & E1 & N1 & R1 & F1 & D1); auto.
   destruct (IHr nsc sc h1) as (h2 & l & E2 & N2 & R2 & F2 & D2); auto.
   { eapply SC_ext; eauto. apply nested_ext; auto. }
-  exists h2, (x :: l). cbn [t2p_as deser_attrs]. rewrite E1, E2. csplit; auto.
+  exists h2, (x :: l). cbn [t2p_as deser_attrs]. rewrite Hex, E1, E2. csplit; auto.
   - eapply nested_trans'; eauto.
   - cbn [real2_as]. split.
     + destruct real2_stable as (_ & _ & _ & _ & Sa & _). eapply Sa; [|exact R1]. apply nested_keepsP; auto.
